@@ -70,11 +70,13 @@ def extract(tree):
     # janet_collect: mark phase order and the drain loop
     jc = norm(csrc.func_body(gc, "janet_collect"))
     pat = (r"depth=JANET_RECURSION_GUARD;.*orig_rootcount=janet_vm\.root_count;(?:#ifdefJANET_EV)?janet_ev_mark\(\);(?:#endif)?"
-           r"janet_mark_fiber\(janet_vm\.root_fiber\);for\(i=0;i<orig_rootcount;i\+\+\)janet_mark\(janet_vm\.roots\[i\]\);"
+           r"(?:if\(NULL!=janet_vm\.root_fiber\))?janet_mark_fiber\(janet_vm\.root_fiber\);for\(i=0;i<orig_rootcount;i\+\+\)janet_mark\(janet_vm\.roots\[i\]\);"
            r"while\(orig_rootcount<janet_vm\.root_count\)\{Janetx=janet_vm\.roots\[--janet_vm\.root_count\];janet_mark\(x\);\}"
            r"janet_vm\.gc_mark_phase=0;.*janet_sweep\(\);")
     if not re.search(pat, jc):
         raise ExtractError("janet_collect: mark order / drain loop / sweep call not recognised")
+    # the root fiber is an optional root (janet_collect may be called from C outside any running fiber)
+    info["rootFiberGuarded"] = "if(NULL!=janet_vm.root_fiber)janet_mark_fiber(janet_vm.root_fiber);" in jc
     if "if(janet_vm.gc_suspend)return;" not in jc:
         raise ExtractError("janet_collect: gc_suspend test not recognised")
     # janet_gcroot pushes at roots[root_count]
@@ -132,7 +134,44 @@ def extract(tree):
         if f in per_type and callee in per_type and (f, callee) not in direct:
             direct.append((f, callee))
     info["directCalls"] = direct
+    # fiber statuses: which ones make the collector copy an on-stack closure environment out (janet_env_maybe_detach,
+    # called from janet_mark_funcenv), and which ones janet_check_can_resume refuses.  Both predicates are *evaluated*
+    # over the whole JanetFiberStatus enum, so any rewriting of the tests is reflected in the generated sets.
+    status = csrc.enum_values(jh, "JANET_STATUS_DEAD")
+    if len(status) != 16:
+        raise ExtractError("JanetFiberStatus: expected 16 members, found %d" % len(status))
+    info["status"] = status
+    fib = csrc.strip_comments(csrc.read(tree, "src/core/fiber.c"))
+    md = csrc.func_body(fib, "janet_env_maybe_detach")
+    m = re.search(r"JanetFiberStatus\s+(\w+)\s*=\s*janet_fiber_status\s*\(\s*env->as\.fiber\s*\)\s*;\s*int\s+(\w+)\s*=([^;]*);\s*if\s*\(\s*(\w+)\s*\)\s*\{\s*janet_env_detach\s*\(\s*env\s*\)\s*;\s*\}", md)
+    if not m or m.group(2) != m.group(4) or not re.search(r"if\s*\(\s*env->offset\s*>\s*0\s*\)", md):
+        raise ExtractError("janet_env_maybe_detach: status test not recognised")
+    info["detachStatuses"] = _eval_pred(m.group(3), m.group(1), status, "janet_env_maybe_detach")
+    vm = csrc.strip_comments(csrc.read(tree, "src/core/vm.c"))
+    cr = csrc.func_body(vm, "janet_check_can_resume")
+    m = re.search(r"if\s*\(((?:[^()]|\([^()]*\))*)\)\s*\{\s*const\s+uint8_t\s*\*\s*str\s*=\s*janet_formatc\s*\(\s*\"cannot resume fiber with status", cr)
+    if not m or "JanetFiberStatus old_status = janet_fiber_status(fiber);" not in re.sub(r"\s+", " ", cr):
+        raise ExtractError("janet_check_can_resume: status test not recognised")
+    info["cannotResume"] = _eval_pred(m.group(1), "old_status", status, "janet_check_can_resume")
     return info
+
+
+def _eval_pred(expr, var, status, where):
+    """evaluate a C boolean expression over `var` for every JanetFiberStatus value"""
+    e = re.sub(r"\s+", " ", expr).strip().replace("||", " or ").replace("&&", " and ")
+    e = re.sub(r"!(?!=)", " not ", e)
+    if re.search(r"[^\w\s()<>=!]", e.replace(" or ", " ").replace(" and ", " ").replace(" not ", " ")):
+        raise ExtractError("%s: status predicate has an unexpected shape: %s" % (where, expr.strip()))
+    out = []
+    for name, v in status.items():
+        env = dict(status)
+        env[var] = v
+        try:
+            if eval(e, {"__builtins__": {}}, env):
+                out.append(v)
+        except Exception as ex:
+            raise ExtractError("%s: cannot evaluate status predicate (%s)" % (where, ex))
+    return sorted(out)
 
 
 def render(tree):
@@ -141,6 +180,8 @@ def render(tree):
     out = [csrc.lean_header("src/core/gc.c, gc.h, janet.h, ev.c, parse.c, peg.c, os.c"), "namespace JanetModel.Gen.GC\n"]
     out.append("/-- JANET_RECURSION_GUARD: initial value of the mark phase's depth counter -/")
     out.append("abbrev recursionGuard : Nat := %d\n" % info["recursionGuard"])
+    out.append("/-- janet_collect marks the root fiber only when there is one (an optional entry of the model's root list) -/")
+    out.append("abbrev rootFiberGuarded : Bool := %s\n" % ("true" if info["rootFiberGuarded"] else "false"))
     out.append("/-- enum JanetMemoryType (gc.h) -/")
     names = {"JANET_MEMORY_NONE": "memNone", "JANET_MEMORY_STRING": "memString", "JANET_MEMORY_SYMBOL": "memSymbol", "JANET_MEMORY_ARRAY": "memArray",
              "JANET_MEMORY_TUPLE": "memTuple", "JANET_MEMORY_TABLE": "memTable", "JANET_MEMORY_STRUCT": "memStruct", "JANET_MEMORY_FIBER": "memFiber",
@@ -167,5 +208,14 @@ def render(tree):
     out.append("]\n")
     out.append("/-- direct (typed, not depth-checked) calls between the per-type mark functions -/")
     out.append("def directCalls : List (String × String) := [" + ", ".join('("%s", "%s")' % d for d in info["directCalls"]) + "]\n")
+    out.append("/-- enum JanetFiberStatus (janet.h) -/")
+    for k, v in info["status"].items():
+        out.append("abbrev %s : Nat := %d" % ("status" + k[len("JANET_STATUS_"):].capitalize(), v))
+    out.append("def statusNames : List String := [" + ", ".join('"%s"' % k for k in info["status"]) + "]")
+    out.append("\n/-- statuses of the owning fiber for which janet_env_maybe_detach (run by the mark phase on every reachable on-stack")
+    out.append("closure environment) copies the environment off the stack: the status test evaluated over the whole enum -/")
+    out.append("def detachStatuses : List Nat := [" + ", ".join(str(v) for v in info["detachStatuses"]) + "]")
+    out.append("/-- statuses janet_check_can_resume refuses (same evaluation) -/")
+    out.append("def cannotResumeStatuses : List Nat := [" + ", ".join(str(v) for v in info["cannotResume"]) + "]\n")
     out.append("end JanetModel.Gen.GC\n")
     return "\n".join(out), {"recursionGuard": info["recursionGuard"], "markSites": len(info["markSites"]), "memoryTypes": len(mem)}
